@@ -211,8 +211,14 @@ def run_tests(tmp):
     base = json.load(open("/root/.vp/BASELINE.json"))
     fd, path = tempfile.mkstemp(suffix=".xml", dir=os.environ.get("TMPDIR", "/var/tmp"))
     os.close(fd)
+    # tests that fail on the unchanged tree are deselected, so that -x (stop at the first failure) stops at the first
+    # test the *mutant* breaks
+    desel = ""
+    bf = os.environ.get("AUTOMUTATE_BASELINE_FAILING")
+    if bf and os.path.exists(bf):
+        desel = " ".join("--deselect '%s'" % ln.strip() for ln in open(bf) if ln.strip())
     cmd = ("cd %s && PYTHONWARNINGS=ignore timeout 900 /venv/bin/python -m pytest -q -x -p no:cacheprovider --timeout=120 "
-           "--continue-on-collection-errors --junitxml=%s" % (tmp, path))
+           "--continue-on-collection-errors %s --junitxml=%s" % (tmp, desel, path))
     subprocess.run(cmd, shell=True, stdout=subprocess.DEVNULL, stderr=subprocess.DEVNULL)
     passed = set()
     try:
@@ -221,9 +227,18 @@ def run_tests(tmp):
                 passed.add("%s::%s" % (tc.get("classname"), tc.get("name")))
     except Exception:
         pass
-    os.unlink(path)
-    missing = sorted(set(base["stable_pass"]) - passed)
-    return len(missing), missing[:3]
+    failed = []
+    try:
+        for tc in ET.parse(path).getroot().iter("testcase"):
+            if any(ch.tag in ("failure", "error") for ch in tc):
+                failed.append("%s::%s" % (tc.get("classname"), tc.get("name")))
+    except Exception:
+        failed.append("<no junit report>")
+    try:
+        os.unlink(path)
+    except OSError:
+        pass
+    return len(failed), failed[:3]
 
 
 def one(job, with_tests, only_tests=False):
@@ -296,7 +311,14 @@ def main():
         return 0
     if args.tests:
         prev = json.load(open(resfile))
-        silent = [r for r in prev if r["outcome"] == "silent" and "tests_broken" not in r]
+        rc_file = os.path.join(args.out, "recheck.json")
+        rc = json.load(open(rc_file)) if os.path.exists(rc_file) else {}
+        for r in prev:
+            r.pop("tests_broken", None)
+            r.pop("tests_which", None)
+            if r["id"] in rc:
+                r["outcome_now"] = rc[r["id"]]["outcome"]
+        silent = [r for r in prev if r.get("outcome_now", r["outcome"]) == "silent"]
         jobs = []
         for r in silent:
             srcb = open(os.path.join(REPO, r["file"]), "rb").read()
